@@ -210,7 +210,7 @@ Proof.
     destruct shorthand; [|apply rspec_syn; lia].
     destruct (negb (index_len (rest s (pos t3)) =? 0)); [|apply rspec_syn; lia].
     apply Hrec; unfold sane; st_simpl; try lia; try assumption.
-    rewrite pp_start_push. assumption. }
+    rewrite pp_start_stop, pp_start_push. assumption. }
   destruct (N.eqb c 93).
   { (* closing bracket *)
     destruct below as [|parent below'].
